@@ -29,7 +29,7 @@ def bounds(tier):
     return {"classifiers": [c.name for c in M.CLASSIFIERS if c.supervised], "regressors": [r.name for r in M.REGRESSORS if r.supervised],
             "refit_only_subjects": [c.name for c in M.STATEFUL_CLASSIFIERS + M.STATEFUL_REGRESSORS],
             "pools": ["line4", "grid4"] if q else ["line4", "dup4", "grid4"], "inserted_rows": "0, 1 (every position, every value); thorough: also 2",
-            "weights": "None; labeled rows 1,2,1,2 and unlabeled rows all patterns over {0.5, 3}", "classes_modes": ["None", "declared"]}
+            "weights": "None; labeled rows 1,2,1,2 or 0,2,1,0 (zero weights at labeled rows) and unlabeled rows all patterns over {0.5, 3}", "classes_modes": ["None", "declared"]}
 
 
 def shards(tier, seed):
@@ -201,13 +201,14 @@ def gen_cases(kind, subj, pname, tier):
         lbl = ~np.isnan(y) if not multi else np.any(~np.isnan(y), axis=1)
         ul = np.flatnonzero(~lbl)
         if len(ul) and lbl.any() and getattr(subj, "supports_weights", True):
-            base = np.array([1.0, 2.0, 1.0, 2.0][:n])
-            for pat in itertools.product((0.5, 3.0), repeat=min(len(ul), 2)):
-                w = base.copy()
-                for j, i in enumerate(ul[:2]):
-                    w[i] = pat[j]
-                ww = w if not multi else np.column_stack([w, w])
-                yield P, y, ww, ([0, 1, 2] if kind == "clf" else None), "pool labeling + weights"
+            # labeled rows: strictly positive weights, and a pattern with zero weights at labeled rows (samples that are labeled but switched off)
+            for base in (np.array([1.0, 2.0, 1.0, 2.0][:n]), np.array([0.0, 2.0, 1.0, 0.0][:n])):
+                for pat in itertools.product((0.5, 3.0), repeat=min(len(ul), 2)):
+                    w = base.copy()
+                    for j, i in enumerate(ul[:2]):
+                        w[i] = pat[j]
+                    ww = w if not multi else np.column_stack([w, w])
+                    yield P, y, ww, ([0, 1, 2] if kind == "clf" else None), "pool labeling + weights"
     # inserted foreign unlabeled rows at every position
     base_labs = [(0, 1, 2, 0), (0, 0, 1, None), (2, None, None, 1)] if not multi else [(0, 1, 1, None, 2, 2), (0, None, None, None, 1, 1)]
     if tier == "thorough" and not multi:
